@@ -154,6 +154,10 @@ def run_driver(exe, args, stdin_path=None, stdout_path=None, timeout=300, env=No
 TLC_JAR = "/opt/veriftools/tla/tla2tools.jar:/opt/veriftools/tla/CommunityModules-deps.jar"
 
 
+import itertools
+_md_counter = itertools.count()
+
+
 class TLCResult:
     def __init__(self):
         self.exit = None
@@ -176,7 +180,7 @@ def run_tlc(spec_dir, module, cfg, workers=NCPU, env=None, timeout=1500, xmx="8g
             metadir=None, dfs=False):
     """Run TLC on spec_dir/module.tla with spec_dir/cfg.  stdout is written to stdout_path."""
     t0 = time.time()
-    md = metadir or os.path.join(OUT, "tlcmeta", "%s_%d_%d" % (module, os.getpid(), int(t0 * 1000) % 10**9))
+    md = metadir or os.path.join(OUT, "tlcmeta", "%s_%d_%d_%d" % (module, os.getpid(), int(t0 * 1000) % 10**9, next(_md_counter)))
     shutil.rmtree(md, ignore_errors=True)
     mkdir(md)
     e = dict(os.environ)
